@@ -168,6 +168,7 @@ class CGetMem(Contract):
     def model(self, it, s, num_bytes):
         ctx = it.ctx
         idx, size = field(s, 'index'), field(s, 'size')
+        num_bytes = ctx.concretize(num_bytes)
         if not ctx.decide(And(num_bytes > 0, zint(idx) + zint(num_bytes) <= zint(size))):
             raise Raised(ExcObj(AssertionError, ("range check failure",)))
         data = field(s, 'data')
@@ -189,7 +190,11 @@ class CGetInt(Contract):
             raise Raised(ExcObj(AssertionError, ("byte_order not defined",)))
         v = CGetMem().model(it, s, num_bytes)
         from pyvc import ops
-        return ops.int_from_bytes(ctx, v, byte_order, is_signed)
+        r = ops.int_from_bytes(ctx, v, byte_order, is_signed)
+        if isinstance(num_bytes, int) and num_bytes <= 2:
+            # small fields (sizes, counts, flags) are often fixed by the caller's precondition
+            r = ctx.concretize(r)
+        return r
 
 
 class CCheckRange(Contract):
